@@ -269,17 +269,23 @@ def shutdownV2 (c : BCfg) (s : St) : St :=
                  else { s.bm with buf := s.bm.buf.shutdown },
            discarded := s.discarded ++ s.bm.buf.items }
 
-/-- one loop iteration took the cursor operation: remove it (v2: signal a waiter; v1: channel hand-off),
-reserve the slot, continue the scan with the new accumulator -/
+def slotsAfter (c : BCfg) (s : St) (slot : Bool) : Nat := if slot && c.mcb != 0 then s.slots + 1 else s.slots
+
+/-- v2: remove the cursor record, `notFull.Signal()`, reserve the slot, go on scanning -/
+def afterTakeV2 (c : BCfg) (s : St) (allow : Nat) (acc' : Acc) (slot : Bool) : St :=
+  { s with bm := signalOne { s.bm with buf := s.bm.buf.remove.1 }, slots := slotsAfter c s slot, loop := .cycle allow acc' }
+
+/-- v1: receive from the channel (the oldest blocked sender's value moves in); v1 has no cursor: the loop keeps
+receiving while the channel has something -/
+def afterTakeV1 (c : BCfg) (s : St) (allow : Nat) (acc' : Acc) (slot : Bool) : St :=
+  let h := v1Handoff { s with bm := { s.bm with buf := s.bm.buf.remove.1 }, slots := slotsAfter c s slot, loop := .cycle allow acc' }
+  { h with bm := { h.bm with buf := { h.bm.buf with cur := if h.bm.buf.items.isEmpty then none else some 0 } } }
+
+/-- one loop iteration took the cursor operation -/
 def afterTake (c : BCfg) (s : St) (allow : Nat) (acc' : Acc) (slot : Bool) : St :=
-  let bmR : BufM := { s.bm with buf := s.bm.buf.remove.1 }
-  let slots' := if slot && c.mcb != 0 then s.slots + 1 else s.slots
   match c.gen with
-  | .v2 => { s with bm := signalOne bmR, slots := slots', loop := .cycle allow acc' }
-  | .v1 =>
-    -- v1 has no cursor: the loop keeps receiving while the channel has something
-    let h := v1Handoff { s with bm := bmR, slots := slots', loop := .cycle allow acc' }
-    { h with bm := { h.bm with buf := { h.bm.buf with cur := if h.bm.buf.items.isEmpty then none else some 0 } } }
+  | .v2 => afterTakeV2 c s allow acc' slot
+  | .v1 => afterTakeV1 c s allow acc' slot
 
 def markCbDone (s : St) (b : Nat) : St :=
   { s with batches := s.batches.map (fun x => if x.id == b then { x with cbDone := true } else x) }
